@@ -150,6 +150,25 @@ func expressible(s *ABody, items []*AItem) bool {
 		if s.IsNil() {
 			return false
 		}
+		if it.Type == "dynamic" && s.Ext.Dyn && len(it.Labels) == 1 {
+			// dynamic "<type>" { for_each = .., content { .. } } where the body allows dynamic blocks
+			target, ok := s.Blocks[it.Labels[0]]
+			if !ok || target.Body.IsNil() {
+				return false
+			}
+			for _, x := range it.Body {
+				if x.K != "block" {
+					if x.Name != "for_each" && x.Name != "iterator" && x.Name != "labels" {
+						return false
+					}
+					continue
+				}
+				if x.Type != "content" || len(x.Labels) != 0 || !expressible(target.Body, x.Body) {
+					return false
+				}
+			}
+			continue
+		}
 		bs, ok := s.Blocks[it.Type]
 		if !ok || len(bs.Labels) != len(it.Labels) || bs.Body.IsNil() {
 			return false
@@ -160,6 +179,9 @@ func expressible(s *ABody, items []*AItem) bool {
 			if nb.K == "block" {
 				found := false
 				if _, ok := inner.Blocks[nb.Type]; ok {
+					found = true
+				}
+				if nb.Type == "dynamic" && inner.Ext.Dyn {
 					found = true
 				}
 				if !found {
